@@ -59,6 +59,17 @@ Q1 == SphereM(<<1, 2>>, 4)      \* circle, centre (1,2), radius 2: contains (3,2
 Q2 == << <<1,0,0>>, <<0,-1,0>>, <<0,0,-1>> >>
 T1 == << <<1,2,0>>, <<0,1,1>>, <<1,0,2>> >>
 T2 == << <<1,1,0>>, <<0,1,0>>, <<0,0,1>> >>
+TriA == << <<0,0,1>>, <<4,1,1>>, <<1,3,1>> >>
+QuadA == << <<0,0,1>>, <<4,0,1>>, <<5,3,1>>, <<1,4,1>> >>
+Tri3 == << <<1,0,0,1>>, <<0,2,0,1>>, <<0,0,3,1>> >>
+Quad3 == << <<0,0,1,1>>, <<2,0,1,1>>, <<2,2,3,1>>, <<0,2,3,1>> >>
+Rot(sq, k) == [i \in 1..Len(sq) |-> sq[((i - 1 + k) % Len(sq)) + 1]]
+Rev(sq) == [i \in 1..Len(sq) |-> sq[Len(sq) + 1 - i]]
+\* two vertex lists describe the same polytope when one is the other read from another start and / or backwards, vertex by
+\* vertex up to the representative
+SameCycleH(A, B) == /\ Len(A) = Len(B)
+                    /\ \E k \in 0..(Len(A) - 1) : \/ \A i \in 1..Len(A) : SameClass(A[i], Rot(B, k)[i])
+                                                    \/ \A j \in 1..Len(A) : SameClass(A[j], Rot(Rev(B), k)[j])
 Configs(o) ==
   CASE o = "eq_pp" -> << << <<1,2,1>>, <<2,4,2>> >>, << <<1,2,1>>, <<1,2,2>> >>, << <<1,1,0>>, <<-2,-2,0>> >> >>
     [] o = "contains_lp" -> << << <<1,2,-5>>, <<1,2,1>> >>, << <<1,2,-5>>, <<3,1,1>> >>, << <<1,2,-5>>, <<0,0,1>> >>, << <<0,0,1>>, <<1,1,0>> >> >>
@@ -90,9 +101,17 @@ Configs(o) ==
     [] o = "dist_pp3" -> << << <<1,2,2,1>>, <<0,0,0,1>> >>, << <<1,0,1,1>>, <<3,2,0,2>> >> >>
     [] o = "contains_ep3" -> << << <<1,1,1,-3>>, <<1,1,1,1>> >>, << <<1,1,1,-3>>, <<1,2,3,1>> >> >>
     [] o = "join_ppp3" -> << << <<1,0,0,1>>, <<0,1,0,1>>, <<0,0,1,1>> >>, << <<0,0,0,1>>, <<1,2,3,1>>, <<1,1,0,0>> >> >>
+    \* two vertex lists (first half / second half): the same cycle from another start, in the other orientation, both; another
+    \* polygon; the same vertex set in another cyclic order; polygons embedded in 3-space; segments
+    [] o = "eq_poly" -> << TriA \o TriA, TriA \o Rot(TriA, 1), TriA \o Rev(TriA), TriA \o Rot(Rev(TriA), 1), TriA \o Rot(Rev(TriA), 2),
+                           QuadA \o Rot(QuadA, 2), QuadA \o Rev(QuadA), QuadA \o Rot(Rev(QuadA), 1), QuadA \o Rot(Rev(QuadA), 3),
+                           QuadA \o << QuadA[1], QuadA[3], QuadA[2], QuadA[4] >>, TriA \o << TriA[1], TriA[2], <<3,5,1>> >>,
+                           QuadA \o [QuadA EXCEPT ![3] = <<4,5,1>>], Tri3 \o Rot(Rev(Tri3), 1), Tri3 \o Rot(Tri3, 2),
+                           Quad3 \o Rot(Rev(Quad3), 2), Quad3 \o [Rev(Quad3) EXCEPT ![2] = <<1,1,1,1>>],
+                           << <<1,2,1>>, <<4,0,1>> >> \o << <<4,0,1>>, <<1,2,1>> >>, << <<1,2,1>>, <<4,0,1>> >> \o << <<4,0,1>>, <<1,3,1>> >> >>
 OpNames == {"eq_pp", "contains_lp", "dist_pp", "dist_lp", "angle_ppp", "crossratio", "join_pp", "meet_ll", "seg_contains", "poly_contains",
             "poly_area", "conic_contains", "conic_polar", "trafo_apply", "trafo_apply_line", "trafo_compose", "is_parallel", "is_perpendicular",
-            "is_collinear", "is_cocircular", "seg_midpoint", "project_lp", "mirror_lp", "dist_pp3", "contains_ep3", "join_ppp3"}
+            "is_collinear", "is_cocircular", "seg_midpoint", "project_lp", "mirror_lp", "dist_pp3", "contains_ep3", "join_ppp3", "eq_poly"}
 
 \* the answer, computed from whatever representatives are stored
 Ans(o, a) ==
@@ -121,6 +140,7 @@ Ans(o, a) ==
     [] o = "mirror_lp" -> [c |-> Primitive(MirrorPH(a[2], a[1]))]
     [] o = "contains_ep3" -> [b |-> PointOnHyper(a[2], a[1])]
     [] o = "join_ppp3" -> [c |-> Primitive(Join3PPP(a[1], a[2], a[3]))]
+    [] o = "eq_poly" -> [b |-> SameCycleH(SubSeq(a, 1, Len(a) \div 2), SubSeq(a, Len(a) \div 2 + 1, Len(a)))]
 
 IsMat(o, i) == (o \in {"conic_contains", "conic_polar", "trafo_apply", "trafo_apply_line", "trafo_compose"} /\ i = 1) \/ (o = "trafo_compose" /\ i = 2)
 ScaleArg(o, i, x, k) == IF IsMat(o, i) THEN MatScale(k, x) ELSE VScale(k, x)
